@@ -34,6 +34,16 @@ func C14Configs(p *spec.Program) []spec.Config {
 	b.ComputedFields = append(b.ComputedFields, "DeepNest.Out.Inner.Leaf.Str", "DeepNest.OutV.Inners.Name", "DeepNest.EmbOne.EvLeaf.Num")
 	b.RequiredFields = append(b.RequiredFields, "DeepNest.OutV.ByKey.LeafV.Num", "DeepNest.Out.WhichMid.Leaf.Flag")
 	b.SensitiveFields = append(b.SensitiveFields, "DeepNest.Out.Inner.LeafMap.Str", "DeepNest.EmbList.EvLeaf.Str")
+	// injected fields with none of the flags, with all of them, with validators and plan modifiers
+	if b.InjectedFields == nil {
+		b.InjectedFields = map[string][]spec.Injected{}
+	}
+	b.InjectedFields["Sink"] = append(b.InjectedFields["Sink"],
+		spec.Injected{Name: "bare", Type: "github.com/hashicorp/terraform-plugin-framework/types.StringType"},
+		spec.Injected{Name: "all_flags", Type: "github.com/hashicorp/terraform-plugin-framework/types.BoolType", Required: true, Computed: true, Optional: true,
+			Validators: []string{"UseSimValidator()", "UseSimValidator()"}, PlanModifiers: []string{"PathModifier()", "PathModifier()"}})
+	b.InjectedFields["Sink.Spec"] = append(b.InjectedFields["Sink.Spec"],
+		spec.Injected{Name: "bare_nested", Type: "github.com/hashicorp/terraform-plugin-framework/types.Int64Type"})
 	tt, dt := *spec.SimTimeType, *spec.SimDurationType
 	tt.TypeConstructor, dt.TypeConstructor = "UseSimTime()", "example.com/x/wrappers.UseDuration()"
 	b.TimeType, b.DurationType = &tt, &dt
